@@ -183,3 +183,27 @@ package PVM
 //@ func decodeOperands
 //@   props C03
 //@   requires wf: instr != nil && int(instr.PC) + 32 <= len(idata) && instr.SkipLen <= 24 && len(idata) < 4294967296
+//@   ensures frame: frame_only(*instr)
+//@   assigns *instr
+
+// skip (A.3): distance to the next instruction start, the bitmask being followed by an infinite run of ones
+//@ pred inst_start_or_end(bitmask, a) = a >= len(bitmask) || bitmask[a] != 0
+//@ func skip
+//@   props C01 C03
+//@   requires range: pc >= 0 && pc < 4294967296 && len(bitmask) < 4294967296
+//@   ensures bound: result <= 24
+//@   ensures gap: forall(m, 0, 24, m < int(result) ==> !inst_start_or_end(bitmask, pc+1+m))
+//@   ensures next: result < 24 ==> inst_start_or_end(bitmask, pc+1+int(result))
+//@   loop j#0
+//@     invariant pos: j >= 1 && (j == 1 || pc + j <= len(bitmask))
+//@     invariant gap: forall(m, 1, j, !inst_start_or_end(bitmask, pc+m))
+
+//@ func (*Program).preDecodeBlocks
+//@   props C03
+//@   requires wf: p != nil && len(p.Bitmasks) == len(p.InstructionData) && len(p.InstructionData) < 4294967000
+//@   loop rangeindex#0
+//@     invariant range: rangeindex >= -1 && rangeindex < len(p.InstrIdxAt)
+//@   loop pc#0
+//@     invariant lens: len(p.InstrIdxAt) == len(idata) && len(p.BlockAt) == len(idata)
+//@   loop pc#1
+//@     invariant lens: len(p.InstrIdxAt) == len(idata) && len(p.BlockAt) == len(idata)
